@@ -42,6 +42,10 @@ def _post(ctx, scns, results):
     return {"rescaled_twins": len(twins), "rescaled": c}
 
 
+REPO_ASSUME = ("thorough tier: every model / filter call the repository's own test-suite executes is recorded (pytest plugin, /repo untouched), "
+               "projected against the Jacobian trees Derive.tla derives from the recorded definition, and validated by EKFCalls_Trace.tla")
+
+
 def run(ctx):
     return numeric.run_numeric(
         ctx, sim=("MC_EKF", "MC_C05_sim.cfg"), sim_num_quick=96, sim_num_thorough=2400, post=_post,
@@ -49,7 +53,7 @@ def run(ctx):
              "innovation and innovation covariance compared by name with TLC's exact Kalman correction; TLC also checks on every "
              "state: z = h(x) => x' = x, P' symmetric PSD, P - P' PSD, S symmetric PD",
         scope="simulation: 1-3 states, 1-3 sensors of 1-3 readings with unequal per-reading noise, calibration present, rational fragment",
-        assumptions=numeric.BASE_ASSUME)
+        assumptions=numeric.BASE_ASSUME + [REPO_ASSUME], repo_tests=True)
 
 
 def replay(ctx, path):
